@@ -153,9 +153,9 @@ PROPS = {
     'C03': dict(technique='repository-specific static rules over rustc MIR (rustc_private driver): edge-cut reachability, must-pass-through, origin terms, lock regions; compile_fail witnesses (Send + Sync models, private shared state)', witnesses=['W1', 'W2'], fn=mk(['R05.2', 'R01.', 'R02.', 'R03.', 'R04.9', 'R04.7', 'R04.10', 'R13.c', 'R06.', 'R07.1', 'R07.5', 'R07.6', 'R15.5', 'R15.2', 'R15.1', 'R08.', 'R09.', 'R10.', 'R11.', 'R12.', 'R18.'], _c03_keep), explanation='C01 clauses instantiated on ParallelSolver, lock regions (no re-entrant acquisition, one acquisition per check-then-act), pop-time discard polarity, cache mark guarded by must_explore'),
     'C04': dict(technique='repository-specific static rules over rustc MIR (rustc_private driver): edge-cut reachability, must-pass-through, origin terms, lock regions; path-consistent guard enumeration for the condvar protocol; lower-bound interval domain (at least one worker)', fn=mk(['R04.', 'R11.c', 'R09.8', 'R18.a', 'R13.c', 'R08.3'], lambda r: r['rule'].startswith(('R04', 'R11', 'R18', 'R13.c', 'R08.3')) or r['instance'].startswith(('par/', 'clear-zeroes'))), explanation='checked premises P1-P9 of the deadlock-freedom argument (DESIGN.md C04): pairing of ongoing, release on every worker exit, wake-up not before the decrement, wait guards (path-consistent enumeration), completion guard, no re-entrant lock, vector length coupled to nb_threads, spawn range, at least one worker (lower-bound interval domain on every writer of nb_threads)'),
     'C05': dict(fn=mk(['R05.', 'R19.1', 'R19.2', 'R11.', 'R02.1', 'R02.5', 'R01.2', 'R01.3'] + C01_RULES, lambda r: _c01_keep_both(r) or r['rule'].startswith(('R05', 'R19'))), explanation='cutoff => Err without finalisation; Err => abort_search on all paths; abort_proof set; completion unreachable after abort; bound stored at abort covers own node, in-flight nodes and fringe top; sequential best_ub written at pop only'),
-    'C06': dict(fn=mk(['R06.', 'R02.4', 'R02.6', 'R01.6', 'R01.7', 'R12.e', 'R12.d', 'R07.5', 'R05.1', 'R10.', 'R18.', 'R09.3', 'R09.4', 'R15.1']), explanation='arc redirection with relaxed cost, relaxed/deleted flags, exactness propagation, complete reset between compilations (field table from the ADT), flag bits and tables, rough-bound pruning direction, exactness withdrawn when squashing'),
-    'C07': dict(fn=mk(['R07.', 'R01.7', 'R02.4', 'R02.5', 'R02.6', 'R13.a', 'R13.b', 'R06.3', 'R12.a', 'R12.d', 'R05.1', 'R10.', 'R18.', 'R09.', 'R15.1']), explanation='restricted never merges, exact never squashes, truncation withdraws exactness and flags dropped nodes, squash order, value and path from one node through the best-edge chain, expanded vector is the squashed one'),
-    'C08': dict(fn=mk(['R08.', 'R01.4', 'R15.3', 'R15.2', 'R15.1', 'R10.', 'R18.', 'R09.3', 'R09.4', 'R12.e', 'R12.d', 'R06.1', 'R06.2', 'R06.3', 'R02.6', 'R02.4', 'R07.5'], lambda r: (r['rule'] != 'R12.e' or 'relax-' in r['instance'] or 'merge' in r['instance']) and (r['rule'] != 'R15.2' or 'depth' in r['instance'])), explanation='sub-problem fields from one exact, marked node; frontier/LEL admission; progress (first layer never squashed; root test for diagrams that keep nodes in the pool); ub term set; local-bound max-update; push unless ub <= best_lb'),
+    'C06': dict(fn=mk(['R06.', 'R02.4', 'R02.6', 'R01.6', 'R01.7', 'R12.e', 'R12.d', 'R07.5', 'R05.1', 'R10.', 'R18.', 'R09.3', 'R09.4', 'R15.1'], lambda r: 'threshold-order' not in r['instance'] and 'threshold-no-manual' not in r['instance']), explanation='arc redirection with relaxed cost, relaxed/deleted flags, exactness propagation, complete reset between compilations (field table from the ADT), flag bits and tables, rough-bound pruning direction, exactness withdrawn when squashing'),
+    'C07': dict(fn=mk(['R07.', 'R01.7', 'R02.4', 'R02.5', 'R02.6', 'R13.a', 'R13.b', 'R06.3', 'R12.a', 'R12.d', 'R05.1', 'R10.', 'R18.', 'R09.', 'R15.1'], lambda r: 'threshold-order' not in r['instance'] and 'threshold-no-manual' not in r['instance']), explanation='restricted never merges, exact never squashes, truncation withdraws exactness and flags dropped nodes, squash order, value and path from one node through the best-edge chain, expanded vector is the squashed one'),
+    'C08': dict(fn=mk(['R08.', 'R01.4', 'R15.3', 'R15.2', 'R15.1', 'R10.', 'R18.', 'R09.3', 'R09.4', 'R12.e', 'R12.d', 'R06.1', 'R06.2', 'R06.3', 'R02.6', 'R02.4', 'R07.5'], lambda r: (r['rule'] != 'R12.e' or 'relax-' in r['instance'] or 'merge' in r['instance']) and (r['rule'] != 'R15.2' or 'depth' in r['instance']) and 'threshold-order' not in r['instance'] and 'threshold-no-manual' not in r['instance']), explanation='sub-problem fields from one exact, marked node; frontier/LEL admission; progress (first layer never squashed; root test for diagrams that keep nodes in the pool); ub term set; local-bound max-update; push unless ub <= best_lb'),
     'C09': dict(fn=mk(['R09.', 'R18.', 'R03.pop', 'R07.5', 'R07.6', 'R15.5', 'R08.3', 'R08.5', 'R01.8', 'R01.3', 'R10.4'], lambda r: 'threshold-order' not in r['instance'] and 'threshold-no-manual' not in r['instance']), explanation='who writes thresholds and when; explored flag; filter below the root only; filter polarity and theta inheritance; closed list of theta writes with their guards; cache entry fields; mark at pop; must_explore before compiling'),
     'C10': dict(technique='decision-table extraction from rustc MIR by exhaustive case / path enumeration over the finite ordering domains (compared with the product-order / Pareto specification tables); origin terms for keys and thresholds', fn=mk(['R10.', 'R07.6', 'R15.5', 'R01.8', 'R18.', 'R09.'], lambda r: 'threshold-order' not in r['instance'] and 'threshold-no-manual' not in r['instance']), explanation='decision tables extracted by path enumeration with literal consistency: partial_cmp loop automaton (9 cases) and value stage (9 cases), cmp polarity, retain closure table, threshold terms, store keys, in-layer filtering protocol'),
     'C11': dict(technique='repository-specific static rules over rustc MIR (rustc_private driver): edge-cut reachability, must-pass-through, origin terms, lock regions; finite-case decision tables (merge of duplicates, bubble steps), linear-form / parity evaluation of the heap index arithmetic, structural key equality', fn=mk(['R11.']), explanation='SimpleFringe delegation to BinaryHeap with CompareSubProblem(MaxUB); MaxUB lexicographic order and operand order; NoDupFringe: len/is_empty/clear, pop/push pairing (slot recycled, key forgotten, position recorded), swaps update both tables, dedup key derived from state AND depth, merge table of the Occupied arm (9 cases), bubble-up decision on the merged candidate'),
